@@ -43,7 +43,7 @@ ASSUMPTIONS = [
 ]
 COMPONENTS = {"real": ["atomica Model / Population / Project.run_sim / Result / Scenario / Project.save/load", "pickle, copy.deepcopy, sciris dcp/saveobj/loadobj"], "stub": ["scheduler only: real threads parked/released one at a time (atomsim.baton)"]}
 
-VARIANTS = ["plain", "progs", "budget", "coverage", "yfactors_dt", "parscen", "saved_init", "offgrid_end", "framework_edit", "progs_from_start"]
+VARIANTS = ["plain", "progs", "budget", "coverage", "yfactors_dt", "parscen", "saved_init", "offgrid_end", "framework_edit", "progs_from_start", "tiny_population"]
 PRIVATE_SETTINGS = ("yfactors_dt", "offgrid_end", "framework_edit")  # variants that change the project's settings: their project object is never shared
 PROJECTS = ["udt", "usdt", "tb_simple", "udt_dyn", "hiv", "hypertension", "dt", "service", "timed_test", "uncertainty", "tb_simple_dyn", "hiv_dyn", "hypertension_dyn", "diabetes", "cervicalcancer", "timed_transfer", "timed_transfer_2", "timed_eligibility", "timed_indirect", "timed_indirect2", "derivative", "par_min_max", "no_compartment", "tb", "timed_tb", "legacy_scen", "legacy_nores"]
 HEAVY = {"tb", "timed_tb", "legacy_scen", "legacy_nores"}
@@ -84,7 +84,7 @@ def budget(tier):
 def variants_for(entry):
     if entry.meta["has_progset"]:
         return list(VARIANTS)
-    return ["plain", "yfactors_dt", "parscen", "saved_init", "offgrid_end", "framework_edit"]
+    return ["plain", "yfactors_dt", "parscen", "saved_init", "offgrid_end", "framework_edit", "tiny_population"]
 
 
 def make_config(at, P, variant):
@@ -97,6 +97,13 @@ def make_config(at, P, variant):
     if variant == "progs":
         progset = P.progsets[0]
         instr = at.ProgramInstructions(start_year=start + 2)
+    elif variant == "tiny_population":
+        # a per-capita style calibration: every initial stock scaled to the order of 1e-7 people, so that compartment
+        # sizes sit below the model's 1e-6 tolerance for part of the run
+        parset = parset.copy("tiny")
+        for _, spec_ in list(P.framework.comps.iterrows()) + list(P.framework.characs.iterrows()):
+            if spec_.name in parset.pars and spec_.get("setup weight", 0) and spec_["databook page"] is not None and (spec_.get("denominator") is None or not isinstance(spec_.get("denominator"), str)):
+                parset.pars[spec_.name].meta_y_factor = 1e-9
     elif variant == "progs_from_start":
         # programs in force from the very first time point (initially empty target compartments are then met by the programs)
         progset = P.progsets[0]
@@ -308,7 +315,7 @@ def run(ch, idx, tier):
             parset, progset, instr = _sc.dcp(parset), _sc.dcp(progset), _sc.dcp(instr)
         if variant != "parscen":
             tpl = [op for op in tpl if op != "scenario_run"] or ["run_sim"]
-        if variant in ("yfactors_dt", "parscen", "saved_init"):
+        if variant in ("yfactors_dt", "parscen", "saved_init", "tiny_population"):  # their parameter set is not the stored one of the project
             tpl = [op if op != "saveload_project_run" else "run_sim" for op in tpl]
         inputs = {"parset": parset, "progset": progset, "instructions": instr, "framework": P.framework, "data": P.data, "settings": P.settings}
         if variant == "parscen":
